@@ -141,6 +141,10 @@ def apply_edit(line, op, st, connected, other=None):
         # an ordered group (not connected) is given the item object the other line holds, then edits its new item
         if line.record_type != "O" or line.is_connected() or other is None or other.is_connected():
             return None
+        if isinstance(other._data.get("items"), str):
+            # (still text, e.g. assigned at level 0: reading it here would decode and store it, and the harness
+            # itself would have changed what the other line writes)
+            return None
         src = core.call(other.get, "items")
         if not src.ok or not isinstance(src.value, list) or not src.value:
             return None      # (an earlier edit may have put something else into the field)
